@@ -27,7 +27,7 @@ def json_value(r, t, sane=0.85):
     return r.choice(["a", "hello", 'q"t', "b\\c", "", "ab", " sp ", "# default:", "éß", "\u4e2d\u6587", "caf\u00e9 \ud83d"]) if ok else r.choice([5, None, True, 1.5, [], {"x": 1}])
 
 
-def gen_requests(r, prog, n, version, hand_n=0, tool_n=0, sane=0.85, w=None):
+def gen_requests(r, prog, n, version, hand_n=0, tool_n=0, sane=0.85, w=None, alt=False):
     tab = kgen.sym_table(prog)
     names = list(tab)
     hot = [a for a, b, _ in kgen.dep_edges(prog)] or names
@@ -66,6 +66,8 @@ def gen_requests(r, prog, n, version, hand_n=0, tool_n=0, sane=0.85, w=None):
 
     def load_spec():
         k = r.random()
+        if alt and r.random() < 0.3:
+            return ["alt"]
         if k < 0.3:
             return None
         if k < 0.55 and saved:
@@ -124,6 +126,8 @@ def resolve_path(spec, sb, default=None):
         return os.path.join(sb, "hand_%d" % spec[1])
     if kind == "tool":
         return os.path.join(sb, "tool_%d" % spec[1])
+    if kind == "alt":
+        return os.path.join(sb, "tool_alt")
     if kind == "missing":
         return os.path.join(sb, "does", "not", "exist")
     if kind == "dir":
